@@ -143,6 +143,11 @@ def run(ctx):
         d_out = nb[0][2][2]
         ok = d_in[0] == "agg" and d_in[2] == "Incoming" and d_out[0] == "agg" and d_out[2] == "Outgoing"
         check("K5|traversal-endpoints", ok, pf.loc(), "path_fold does not start at the nodes without incoming edges and follow outgoing edges", "chains are measured from their last instruction only")
+        # every such node starts a walk: the start set is the `externals` iterator collected as it is (a node without any
+        # edge is a chain of length one, e.g. a single gate alone on its qubits)
+        cols = [a for bb, t, a in cn(pf, "collect") if a and any(c[1].endswith("::externals") for c in expr_calls(a[0]))]
+        whole = len(cols) == 1 and cols[0][0][0] == "call" and cols[0][0][1].endswith("::externals")
+        check("K5|every-source-starts-a-walk", whole, pf.loc(), "path_fold does not start a walk from every node without incoming edges (the externals iterator is filtered or otherwise adapted before it is collected)", "`X 0` alone has depth 0 instead of 1")
     else:
         res.site("K5|traversal-endpoints", False, {"verdict": "undecided: traversal restructured"})
         res.undecided.append("K5|traversal-endpoints")
